@@ -1,3 +1,30 @@
+(* EngineSafetyDecode.v -- safety and termination (fuel sufficiency) of the two block decoders of
+   RModel/Engine.v: decodeLiteralBlock (lit_drain, copy_list) and decodeHuffman (huff_outer,
+   huff_inner, litlen_decode, dist_decode, byteCopy).
+
+   Main results:  decodeLiteralBlock_spec  (exactly as requested)
+                  decodeHuffman_spec_v2    (requested statement + one extra hypothesis)
+
+   DEVIATION.  decodeHuffman_spec as requested (hypotheses br_inv, 0 <= r_len, tabs_ok, w <= outLen)
+   is FALSE: e <> EFuel fails.  Counterexample (checked with vm_compute):
+     e0 = 0x19000500  (plain litShort entry: bitCount 1, symCount 2, symbol field 0x1000500;
+                       lit_short_okb e0 = true)
+     t0 = mkTB (arr_of_list (repeat e0 4096)) aempty aempty aempty          (tabs_ok t0)
+     s0 = mkInflate (mkBR 0 0 (repeat 0 16) 16) false ov0 t0 phaseHeaderDecoded 0 0 0 [] dyn0 0
+     decodeHuffman s0 aempty outLen  =  (_, _, 65536, EFuel).
+   Reason: with w = outLen the literal branch of huff_inner takes the output-overflow `continue`
+   (symCount := 1, nextLits := nextLits >> 8*(symCount-1) = 0x10005); the low 16 bits of that value
+   are < 256, so the next iteration is again the literal branch with w = outLen and the same
+   `continue` is taken forever (the Go loop would spin as well).  tabs_ok (lit_short_ok) does not
+   bound the symbol field of a plain entry.  Tables built by genForLitLen never look like this: the
+   symbol field of an entry with symCount k fits in 8*(k+1) bits.  The missing per-entry clause is
+     lit_short_sym_ok e :=
+       N.land e largeFlagBit = 0 -> N.shiftr e 28 <> 0 ->
+       N.shiftr (N.land e largeShortSymMask) (8 * (N.land (N.shiftr e 26) 3 - 1)) < 65536
+   (lit_short_sym_ok_of_lt: it follows from  land e largeShortSymMask < 2^(8*symCount+8);
+    static_lit_short_sym_ok: the static table satisfies it).
+   decodeHuffman_spec_v2 = the requested statement with the additional hypothesis
+     all_entries lit_short_sym_ok (litShort (tb s));  conclusion unchanged. *)
 From Verif Require Import Engine EngineTables.
 From Verif Require Import Base EngineSafetyBase EngineSafetyBits EngineSafetyInv.
 From Coq Require Import List NArith ZArith Bool Lia ZifyBool ZifyNat ZifyN.
@@ -887,3 +914,66 @@ Proof.
   split; [exact R2|]. exact R1.
 Qed.
 
+(* decodeHuffman_spec as stated in the task is FALSE (see the top of the file): tabs_ok does not
+   bound the symbol field of a plain litShort entry.  decodeHuffman_spec_v2 = the requested
+   statement plus the hypothesis  all_entries lit_short_sym_ok (litShort (tb s)). *)
+Theorem decodeHuffman_spec_v2 : forall s out w s' out' w' e,
+  decodeHuffman s out w = (s', out', w', e) ->
+  br_inv (rd s) -> (0 <= r_len (rd s))%Z -> tabs_ok (tb s) ->
+  all_entries lit_short_sym_ok (litShort (tb s)) -> w <= outLen ->
+  e <> EPanic /\ e <> EFuel /\ e <> EInvalidBlock /\
+  br_inv (rd s') /\ (0 <= r_len (rd s'))%Z /\
+  w <= w' /\ w' <= outLen /\
+  (avail (rd s') <= avail (rd s))%Z /\ r_inlen (rd s') <= r_inlen (rd s) /\
+  (e = EEndInput -> r_inlen (rd s') = 0) /\
+  (e = EOutputOverflow -> w' = outLen) /\
+  (e = ENone -> phase s' <> phaseHeaderDecoded) /\
+  (phase s' = phase s \/ phase s' = phaseStreamEnd \/ phase s' = phaseNewBlock) /\
+  inputNil s' = inputNil s /\ tb s' = tb s /\ bfinal s' = bfinal s /\
+  litBlockLength s' = litBlockLength s /\
+  headerBuffered s' = headerBuffered s /\ headerBuffer s' = headerBuffer s /\ dyn s' = dyn s /\
+  roffset s' = roffset s.
+Proof.
+  intros s out w s' out' w' e.
+  (* unfold in the goal, not in a hypothesis: the kernel then unfolds decodeHuffman before
+     huff_outer and never evaluates big_fuel *)
+  unfold decodeHuffman.
+  intros H Hinv H0 Ht Hsym Hw.
+  pose proof (decodeHuffman_gen big_fuel s out w s' out' w' e H
+                (big_fuel_enough w _) Hinv H0 Ht Hsym Hw)
+    as (R1 & R2 & R3 & R4 & R5 & R6 & R7 & R8 & R9 & R10 & R11 & R12).
+  unfold outer_err in R1.
+  split; [destruct R1 as [Q|[Q|[Q|[Q|Q]]]]; rewrite Q; discriminate|].
+  split; [destruct R1 as [Q|[Q|[Q|[Q|Q]]]]; rewrite Q; discriminate|].
+  split; [destruct R1 as [Q|[Q|[Q|[Q|Q]]]]; rewrite Q; discriminate|].
+  split; [exact R2|]. split; [exact R3|]. split; [exact R4|]. split; [exact R5|].
+  split; [exact R6|]. split; [exact R7|]. split; [exact R8|]. split; [exact R9|].
+  split; [exact R10|]. split; [exact R11|]. exact R12.
+Qed.
+
+(* the counterexample to the requested decodeHuffman_spec, machine-checked *)
+Lemma decodeHuffman_spec_counterexample :
+  exists s out w,
+    br_inv (rd s) /\ (0 <= r_len (rd s))%Z /\ tabs_ok (tb s) /\ w <= outLen /\
+    snd (decodeHuffman s out w) = EFuel.
+Proof.
+  exists (mkInflate (mkBR 0 0%Z (repeat 0 16) 16) false ov0
+            (mkTB (arr_of_list (repeat 0x19000500 4096)) aempty aempty aempty)
+            phaseHeaderDecoded 0 0 0 [] dyn0 0%Z), aempty, outLen.
+  cbn [rd tb r_len].
+  split; [unfold br_inv; cbn [r_inlen r_in r_len]; split; [reflexivity|split; [lia|intros; lia]]|].
+  split; [lia|]. split.
+  - unfold tabs_ok; cbn [litShort litLong distShort distLong].
+    split; [|split; [|split]].
+    + apply all_entries_of_list; [exact lit_short_ok_0|].
+      apply (forallb_Forall_impl lit_short_okb); [exact lit_short_okb_ok|]. vm_compute. reflexivity.
+    + apply all_entries_empty. exact lit_long_ok_0.
+    + apply all_entries_empty. exact dist_short_ok_0.
+    + apply all_entries_empty. exact dist_long_ok_0.
+  - split; [unfold outLen; lia|]. vm_compute. reflexivity.
+Qed.
+
+Print Assumptions decodeLiteralBlock_spec.
+Print Assumptions decodeHuffman_spec_v2.
+
+Print Assumptions decodeHuffman_spec_counterexample.
